@@ -68,7 +68,8 @@ def run_query(vec, emb, eid):
                 ret = [(row[1] if len(row) > 1 else -1) for row in r]
             elif op == "overlapCheck":
                 iv = lambda x: constants.Interval(g(x["s"]), g(x["e"]), "")
-                ret = bool(utils.intervalOverlapCheck(iv(a["a"]), iv(a["b"]), boundaryInclusive=a["inclusive"]))
+                ret = bool(utils.intervalOverlapCheck(iv(a["a"]), iv(a["b"]), percentThreshold=a["pct"] / 100.0, timeThreshold=g(a["tthr"]),
+                                                      boundaryInclusive=a["inclusive"]))
             elif op == "invert":
                 r = utils.invertIntervalList([(g(x["s"]), g(x["e"])) for x in a["ivs"]], g(a["lo"]), g(a["hi"]))
                 ret = [{"s": pj.t(x[0]), "e": pj.t(x[1])} for x in r]
@@ -201,7 +202,11 @@ def rand_query_vectors(n, seed):
         elif op == "overlapCheck":
             p = sorted(rng.sample(range(0, 12), 2))
             q = sorted(rng.sample(range(0, 12), 2))
-            out.append({"op": op, "args": {"a": {"s": p[0], "e": p[1]}, "b": {"s": q[0], "e": q[1]}, "inclusive": rng.random() < 0.5}})
+            # thresholds one at a time, percentages with exact binary fractions (ties at exactly the threshold are exact on the dyadic grid)
+            r = rng.random()
+            pct, tthr = (rng.choice([25, 50, 75]), 0) if r < 0.3 else (0, rng.randint(1, 4)) if r < 0.6 else (0, 0)
+            out.append({"op": op, "args": {"a": {"s": p[0], "e": p[1]}, "b": {"s": q[0], "e": q[1]}, "inclusive": rng.random() < 0.5,
+                                           "pct": pct, "tthr": tthr}})
         elif op == "invert":
             pts = sorted(rng.sample(range(2, HI - 2), 2 * rng.randint(0, 3)))
             ivs, i = [], 0
@@ -263,7 +268,9 @@ def check_c15(prop, tier):
         res.exhaustive = True
         items = [({"op": e["op"], "args": e["args"], "pre": e["pre"]}, emb) for emb in ("dy", "dec") for e in emitted]
         rv = rand_query_vectors(sz["rand"], common.SEED)
-        items += [(v, "ms" if i % 2 else "dy") for i, v in enumerate(rv)]
+        # (overlap thresholds are compared with computed differences and quotients: ties are only exact on the dyadic grid)
+        thr = lambda v: v["op"] == "overlapCheck" and (v["args"]["pct"] or v["args"]["tthr"])
+        items += [(v, "ms" if (i % 2 and not thr(v)) else "dy") for i, v in enumerate(rv)]
         import multiprocessing as mp
         size = max(1, len(items) // (2 * common.NCPU) + 1)
         chunks = [(items[i:i + size], i, work) for i in range(0, len(items), size)]
